@@ -2,6 +2,7 @@ package types
 
 import (
 	"encoding/json"
+	"fmt"
 	"maps"
 	"slices"
 	"strings"
@@ -34,6 +35,9 @@ func (e *EntityMap) UnmarshalJSON(b []byte) error {
 	}
 	var res = EntityMap{}
 	for _, e := range s {
+		if _, ok := res[e.UID]; ok {
+			return fmt.Errorf("duplicate entity %v", e.UID)
+		}
 		res[e.UID] = e
 	}
 	*e = res
